@@ -6,6 +6,7 @@ use crate::engine::*;
 pub mod c01;
 pub mod c04;
 pub mod c05;
+pub mod c06;
 pub mod c07;
 pub mod c08;
 pub mod c09;
@@ -14,6 +15,7 @@ pub mod c11;
 pub mod c12;
 pub mod c13;
 pub mod c14;
+pub mod c15;
 pub mod c19;
 
 pub struct Prop {
@@ -26,6 +28,7 @@ pub const PROPS: &[Prop] = &[
     Prop { id: "C01", run: c01::run, eval: c01::eval },
     Prop { id: "C04", run: c04::run, eval: c04::eval },
     Prop { id: "C05", run: c05::run, eval: c05::eval },
+    Prop { id: "C06", run: c06::run, eval: c06::eval },
     Prop { id: "C07", run: c07::run, eval: c07::eval },
     Prop { id: "C08", run: c08::run, eval: c08::eval },
     Prop { id: "C09", run: c09::run, eval: c09::eval },
@@ -34,6 +37,7 @@ pub const PROPS: &[Prop] = &[
     Prop { id: "C12", run: c12::run, eval: c12::eval },
     Prop { id: "C13", run: c13::run, eval: c13::eval },
     Prop { id: "C14", run: c14::run, eval: c14::eval },
+    Prop { id: "C15", run: c15::run, eval: c15::eval },
     Prop { id: "C19", run: c19::run, eval: c19::eval },
 ];
 
